@@ -116,12 +116,12 @@ def pstr(p):
     return '/'.join(str(x) for x in p)
 
 
-def run_parse(binary, work, name, files, main='workflow.yaml', input_bytes=b'x: x\n', run_input=True, timeout_ms=15000):
+def run_parse(binary, work, name, files, main='workflow.yaml', input_bytes=b'x: x\n', run_input=True, timeout_ms=15000, supply_all=False):
     d = os.path.join(work, name)
     os.makedirs(d, exist_ok=True)
     sc = {'files_b64': {k: base64.b64encode(v if isinstance(v, bytes) else v.encode()).decode() for k, v in files.items()},
           'main': main, 'input_b64': base64.b64encode(input_bytes).decode(), 'dir': os.path.join(d, 'ctx'), 'run_input': run_input,
-          'timeout_ms': timeout_ms, 'result_out': os.path.join(d, 'r.json'), 'max_stack_mb': 64}
+          'timeout_ms': timeout_ms, 'result_out': os.path.join(d, 'r.json'), 'max_stack_mb': 64, 'supply_all': supply_all}
     json.dump(sc, open(os.path.join(d, 'sc.json'), 'w'))
     try:
         p = subprocess.run([binary, 'parse', os.path.join(d, 'sc.json')], capture_output=True, text=True, timeout=timeout_ms / 1000 + 30, env=vlib.GOENV, errors='replace')
@@ -276,14 +276,16 @@ def run(ctx):
     with cf.ThreadPoolExecutor(max_workers=max(2, vlib.NCPU - 2)) as ex:
         res1 = list(ex.map(lambda a: run_parse(binary, ctx.work, 'c%05d' % a[0], a[1][1], input_bytes=a[1][2]), enumerate(jobs)))
         res2 = list(ex.map(lambda a: run_parse(binary, ctx.work, 'g%05d' % a[0], a[1][2], run_input=False), enumerate(gjobs)))
+        # the same reference graphs with a caller that hands Parse every file of the directory (not only the main workflow)
+        res3 = list(ex.map(lambda a: run_parse(binary, ctx.work, 'h%05d' % a[0], a[1][2], run_input=False, supply_all=True), enumerate(gjobs)))
     returned = 0
     parsed = 0
     for (what, fl, ib), r in zip(jobs, res1):
         if judge(ctx, r, what):
             returned += 1
             parsed += 1 if r['result'].get('parsed') else 0
-    for (g, okv, fl), r in zip(gjobs, res2):
-        what = 'reference-graph %s' % json.dumps(g, sort_keys=True)
+    for (g, okv, fl), r, supplied in [(j, r, False) for j, r in zip(gjobs, res2)] + [(j, r, True) for j, r in zip(gjobs, res3)]:
+        what = 'reference-graph %s%s' % (json.dumps(g, sort_keys=True), ' (all files supplied by the caller)' if supplied else '')
         if not judge(ctx, r, what):
             continue
         returned += 1
